@@ -15,7 +15,9 @@
    every such bound. *)
 Require Import List Arith Bool.
 From Dasp Require Import Base.Res Base.ListX Ring.Bounded Ring.BoundedSpec Ring.BoundedProofs
-  Signal.Buffered Signal.BufferedSpec Signal.BufferedProofs Signal.BufferedExamples.
+  Signal.Buffered Signal.BufferedSpec Signal.BufferedProofs Signal.BufferedExamples
+  Signal.SigGenPrim Signal.BufferedGenGlue Signal.BufferedGenEquiv Signal.BufferedGenExamples.
+From DaspGen Require Import RingGen BufferedGen.
 Import ListNotations.
 
 (* Every operation from every valid state does what the ideal prefetcher does
@@ -122,3 +124,44 @@ Theorem c14_from_raw_parts : forall (A : Type) (s n : nat) (d : list A) (b : bou
   from_raw_parts s n d = Ok b -> Inv b /\ 1 <= max_len b.
 Proof. exact @from_raw_parts_valid. Qed.
 Print Assumptions c14_from_raw_parts.
+
+(* ---- the tie to the source -------------------------------------------------------------------
+   gen/BufferedGen.v is REGENERATED from dasp_signal/src/lib.rs by translate/sig2coq.py on every run of the check (one
+   definition per method: Signal::buffered, Buffered::next / next_frames / is_exhausted / into_parts,
+   BufferedFrames::next), its ring-buffer calls being the generated methods of gen/RingGen.v (regenerated from
+   dasp_ring_buffer/src/lib.rs, c06_gen_bounded_agrees) and its source signal abstract.  Instantiated with the hand
+   model's source ([src_next EQ], [src_exhausted]) every generated definition equals the hand model's, for ALL inputs
+   -- valid ring states or not, any fuel, including which panic / UB comes out.  ([to_g]/[of_g]: the two record
+   representations of Buffered { signal, ring_buffer }; [gen_frames_take]: next_frames() + k calls of the generated
+   BufferedFrames::next + the borrow written back, Signal/BufferedGenGlue.v.)  Hence the interpreter over the
+   regenerated methods equals [step]/[run] ... *)
+Theorem c14_gen_agrees : forall (A : Type) (EQ : A),
+  ((forall (s : source A) (b : bounded A), Signal_buffered s b = Ok (to_g (mk_buffered s b))) /\
+   (forall fuel (g : buffered_g (source A) A),
+      Buffered_next (src_next EQ) fuel g = rmap (fun r => (to_g (snd r), fst r)) (next_loop EQ fuel (of_g g))) /\
+   (forall g : buffered_g (source A) A,
+      Buffered_next_frames (src_next EQ) g = rmap (fun u' => (to_g u', rb u')) (next_frames EQ (of_g g))) /\
+   (forall b : bounded A, BufferedFrames_next b = pop b) /\
+   (forall g : buffered_g (source A) A, BufferedFrames_size_hint (bg_ring_buffer g) = Ok (frames_size_hint (of_g g))) /\
+   (forall g : buffered_g (source A) A, Buffered_is_exhausted (@src_exhausted A) g = Ok (is_exhausted (of_g g))) /\
+   (forall g : buffered_g (source A) A, Buffered_into_parts g = Ok (into_parts (of_g g))) /\
+   (forall k (g : buffered_g (source A) A), gen_frames_take (src_next EQ) k g =
+      rmap (fun r => (to_g (snd r), fst r)) (let* u1 := next_frames EQ (of_g g) in frames_take k u1))) /\
+  (forall fuel (g : buffered_g (source A) A) (o : bop),
+     gen_step (src_next EQ) (@src_exhausted A) fuel g o =
+     rmap (fun r => (to_g (fst r), snd r)) (step EQ fuel (of_g g) o)) /\
+  (forall fuel (ops : list bop) (g : buffered_g (source A) A),
+     gen_run (src_next EQ) (@src_exhausted A) fuel g ops =
+     rmap (fun r => (to_g (fst r), snd r)) (run EQ fuel (of_g g) ops)).
+Proof. exact @gen_buffered_agrees. Qed.
+Print Assumptions c14_gen_agrees.
+
+(* ... so the history theorem holds of the interpreter over the regenerated methods (and with it every theorem
+   above, which are consequences of [run]'s refinement). *)
+Theorem c14_gen_history : forall (A : Type) (EQ : A) (fuel : nat) (ops : list bop) (g : buffered_g (source A) A),
+  2 <= fuel -> Inv (bg_ring_buffer g) ->
+  exists g' vs, gen_run (src_next EQ) (@src_exhausted A) fuel g ops = Ok (g', vs) /\ Inv (bg_ring_buffer g') /\
+                max_len (bg_ring_buffer g') = max_len (bg_ring_buffer g) /\
+                spec_run EQ (max_len (bg_ring_buffer g)) (abs_u (of_g g)) ops = (abs_u (of_g g'), vs).
+Proof. exact @gen_run_refines. Qed.
+Print Assumptions c14_gen_history.
